@@ -61,6 +61,14 @@ var propInfo = map[string]struct {
 			"NOT covered: re-association of + and * chains (tryReorderBinaryOp, isBinaryOpExprAllValue), folding of constant function calls (tryOptimizeFunctionCall: assumed thin contract), and the composition over the whole tree (in-place mutation of a tree needs an ownership argument outside this contract language)",
 			"floats are uninterpreted: no claim about IEEE rounding of re-associated chains (outside the property by its own quantifier)",
 		}},
+	"C15": {"proof",
+		"Precedence climbing, proved on the real parser code (parseExpr, parseBinaryExpr, parseUnaryExpr, parsePrimaryExpr, parseOperand, parseFuncCall, parseFieldAccess, parseList, parseBetween, tokPrec, expect, next, BuildOp, Token.Precedence): (1) Token.Precedence is exactly the documented table (| or = 1 < & and = 2 < comparisons, in, between = 3 < + - = 4 < * / = 5, everything else lowest) and BuildOp maps each documented spelling to its operator code; (2) every BinaryOpExpr node the parser builds, for every token sequence, has a left operand whose level is at least the operator's documented strength and a right operand whose level is strictly greater (ghost level: 6 for operands / unary / call / index / parenthesised / list expressions, the operator's strength for a binary node) - which is 'binds by documented strength, left-associatively, parentheses overriding'; (3) parseBinaryExpr(prec) stops exactly in front of an operator weaker than prec, BETWEEN's bounds bind tighter than the comparison level so its `and` is not taken for the conjunction, and the strength recorded in the tree (by operator code) agrees with the strength used while climbing (by token text).",
+		[]string{
+			"NOT covered: the round trip through Expression.String() and the lexer (re-parsing rendered text needs reasoning about the lexer on symbolic strings), case folding (lexer), and that tokens are consumed strictly in order without skipping (only monotonicity of the cursor is proved)",
+			"the ghost level is maintained by ghost statements in the contract file (atend / atreturn); it influences no executable code",
+			"an `in (list)` node closes at the list's parenthesis and is given level 6: what follows it continues as after a parenthesised expression (a list is not an operand of any documented operator)",
+			"termination / stack depth of the mutually recursive parser functions is not proved here",
+		}},
 	"C07": {"proof",
 		"Order plan, proved on the real code: the comparators return the sign of the documented order (integers and floats numerically, text byte-wise, false before true, negated for DESC; values of different kinds compare as unordered instead of panicking); Less is exactly the lexicographic order over the ORDER BY keys (first differing key decides, ties are not less - stated with a ghost index); the heap adapter's Len/Swap/Push/Pop/Less are exact; Init resolves every order field to the position of the select field of that name; prepare/prepareBatch push every row of the child exactly once (ghost heap size = total - pos, child drained), Next/Batch pop one row per returned row and stop exactly when all have been returned; buildFinalOrderPlan elides only a lone `order by key asc` on a non-aggregate query.",
 		[]string{
